@@ -15,7 +15,8 @@ theorem doomed_mono {i : Nat} {s s' : Sim} (h : Doomed i s)
     exact Or.inl ⟨e', he', by rw [hi', hi], hc'⟩
   · exact Or.inr (hg i h)
 
-theorem pushUser_doomed {i : Nat} {s : Sim} (h : Doomed i s) (t : Int) (p a : Nat) : Doomed i (pushUser s t p a) :=
+theorem pushUser_doomed {i : Nat} {s : Sim} (h : Doomed i s) (t : Int) (p a : Nat) (c : Option Nat := none) :
+    Doomed i (pushUser s t p a c) :=
   doomed_mono h (fun e he hc => ⟨e, mem_insert.mpr (Or.inr he), rfl, hc⟩) (fun _ hj => hj)
 
 theorem pushStep_doomed {i : Nat} {s : Sim} (h : Doomed i s) : Doomed i (pushStep s) :=
@@ -26,10 +27,10 @@ theorem mapFlags_doomed {i : Nat} {s : Sim} (h : Doomed i s) (g : Ev → Ev)
     Doomed i { s with pending := s.pending.map g } :=
   doomed_mono h (fun e he hc => ⟨g e, List.mem_map.mpr ⟨e, he, rfl⟩, (hg e).1, (hg e).2 hc⟩) (fun _ hj => hj)
 
-theorem doCmd_doomed {i : Nat} {s : Sim} (h : Doomed i s) (c : Cmd) : Doomed i (doCmd s c) := by
+theorem doCmd1_doomed {i : Nat} {s : Sim} (h : Doomed i s) (c : Cmd) : Doomed i (doCmd1 s c) := by
   cases c with
   | schedAbs t p a =>
-    simp only [doCmd, schedAbs]
+    simp only [doCmd1, schedAbs]
     split
     · rename_i s' hs
       split at hs
@@ -39,7 +40,7 @@ theorem doCmd_doomed {i : Nat} {s : Sim} (h : Doomed i s) (c : Cmd) : Doomed i (
         · simp only [Except.ok.injEq] at hs; subst hs; exact pushUser_doomed h _ _ _
     · exact h
   | schedRel d p a =>
-    simp only [doCmd, schedRel]
+    simp only [doCmd1, schedRel]
     split
     · rename_i s' hs
       split at hs
@@ -48,9 +49,22 @@ theorem doCmd_doomed {i : Nat} {s : Sim} (h : Doomed i s) (c : Cmd) : Doomed i (
         · simp at hs
         · simp only [Except.ok.injEq] at hs; subst hs; exact pushUser_doomed h _ _ _
     · exact h
+  | again k d p =>
+    rcases doCmd1_again_cases s k d p with he | ⟨a, _, _, he⟩ <;> rw [he]
+    · exact h
+    · exact pushUser_doomed h _ _ _ _
   | cancel k => exact mapFlags_doomed h _ (fun e => by split <;> simp)
-  | drop k => exact mapFlags_doomed h _ (fun e => by split <;> simp)
+  | drop k =>
+    exact doomed_mono
+      (mapFlags_doomed h (fun e => if !e.isStep && e.fn == k then { e with dead := true } else e) (fun e => by split <;> simp))
+      (fun e he hc => ⟨e, he, rfl, hc⟩) (fun _ hj => hj)
   | halt => exact h
+  | raise x => exact h
+
+theorem doCmd_doomed {i : Nat} {s : Sim} (h : Doomed i s) (c : Cmd) : Doomed i (doCmd s c) := by
+  unfold doCmd; split
+  · exact h
+  · exact doCmd1_doomed h c
 
 theorem foldl_doCmd_doomed {i : Nat} {s : Sim} (h : Doomed i s) (cs : List Cmd) : Doomed i (cs.foldl doCmd s) := by
   induction cs generalizing s with
@@ -104,7 +118,9 @@ theorem runUntil_doomed {i : Nat} {f : Nat} {s s' : Sim} {T : Int} (h : Doomed i
       · exact Or.inr (List.mem_append.mpr (Or.inl h))
     · rename_i e₀ rest hp
       split at hr
-      · exact ih (popExec_doomed h hp) hr
+      · split at hr
+        · simp only [Option.some.injEq] at hr; subst hr; exact popExec_doomed h hp
+        · exact ih (popExec_doomed h hp) hr
       · simp only [Option.some.injEq] at hr; subst hr
         obtain ⟨hd, _⟩ := popLive_decomp hp
         rcases h with ⟨e, he, hi, hc⟩ | h
@@ -134,6 +150,7 @@ theorem doomed_stays {i : Nat} {s s' : Sim} (h : Doomed i s) (hr : ReachableFrom
   | cmd c _ ih => exact doCmd_doomed ih c
   | «until» _ _ hrun ih => exact runUntil_doomed ih hrun
   | next _ ih => exact runNext_doomed ih
+  | caught _ ih => exact ih
 
 theorem doomed_not_logged {i : Nat} {s : Sim} (ha : Acc s) (h : Doomed i s) : i ∉ logIds s.log := by
   intro hl
